@@ -655,3 +655,145 @@ Print Assumptions C01_binary_back_to_back.
 Theorem C01_binary_twice_steps_le : forall G (R1 R2 : Z -> list Z) (n : nat), (BinaryTwice.twice_steps G R1 R2 n <= Z.to_nat G * (3 * (n + n)))%nat.
 Proof. exact BinaryTwice.twice_steps_le. Qed.
 Print Assumptions C01_binary_twice_steps_le.
+
+(* ==== EVERY SCHEDULE, WITH COLLECTIVES: the collective contracts and the round abstraction of allgather, pex, pcx, rsx, ranges discharged ====
+   MPI/SemColl.v: SemAny.v's step relation (buffered sends, named and wildcard receives on FIFO channels) + the rule "when ALL ranks
+   0 .. P-1 are at a collective of the same kind and root, it fires: every rank continues with creply kind root contributions rank".
+   The contract used for the notify programs is SemColl.coll_reply (C01_coll_contract below spells it out): THIS is the MPI contract
+   that is trusted.  MPI/SemRoundsOrd.v: SemRounds.v's every-schedule theorem for results that may depend on the arrival order and
+   for levels whose receives all name their source in a fixed order.  C01/CollSched.v, CensusSched.v, RangesSched.v: the instances for
+   the co-simulated programs.  Progress is stated positively (a reachable state is final or can step), which implies "not stuck".
+   Documentation: docs/C01_sched2.md. *)
+From ScV Require MPI.SemColl MPI.SemRoundsOrd C01.CollSched C01.CensusSched C01.RangesSched.
+
+(* every run of SemAny.v is a run of the semantics with collectives; "final or can step" excludes a stuck state *)
+Theorem C01_semcoll_embedding : forall P creply n s s', SemAny.run_a n s s' -> SemColl.run_c P creply n s s'.
+Proof. exact SemColl.run_a_in_run_c. Qed.
+Print Assumptions C01_semcoll_embedding.
+Theorem C01_semcoll_progress_not_stuck : forall P creply s, Sem.final s \/ SemColl.can_step_c P creply s -> ~ SemColl.stuck_c P creply s.
+Proof. exact SemColl.progress_not_stuck. Qed.
+Print Assumptions C01_semcoll_progress_not_stuck.
+(* the executable scheduler (a choice of SemAny.v, or "the collective fires") is sound and complete for the step relation *)
+Theorem C01_semcoll_exec_sound : forall P creply (l : list SemColl.cchoice) s s',
+  SemColl.exec_c P creply l s = Some s' -> SemColl.run_c P creply (length l) s s'.
+Proof. exact SemColl.exec_c_sound. Qed.
+Print Assumptions C01_semcoll_exec_sound.
+Theorem C01_semcoll_exec_complete : forall P creply s l s', SemColl.step_c P creply s l s' ->
+  exists c, SemColl.label c = l /\ SemColl.exec_step_c P creply s c = Some s'.
+Proof. exact SemColl.exec_step_c_complete. Qed.
+Print Assumptions C01_semcoll_exec_complete.
+
+(* THE TRUSTED CONTRACT of the collectives, spelled out (cs = contributions in rank order, r = the rank that asks; blk cs = ints per
+   rank = |first contribution| / number of ranks): Allgather(v) = concatenation; Alltoall = the r-th block of every contribution;
+   Reduce_scatter_block (SUM) / accumulate epoch = sums of the entries of block r; Allreduce (MAX) = entry-wise maximum *)
+Theorem C01_coll_contract : forall root cs r,
+  SemColl.coll_reply K_ALLGATHER root cs r = concat cs /\
+  SemColl.coll_reply K_ALLGATHERV root cs r = concat cs /\
+  SemColl.coll_reply K_ALLTOALL root cs r = flat_map (fun c => firstn (SemColl.blk cs) (skipn (Z.to_nat r * SemColl.blk cs) c)) cs /\
+  SemColl.coll_reply K_RSB root cs r =
+    map (fun i => SemColl.sumz (map (fun c => nth (Z.to_nat r * SemColl.blk cs + i) c 0) cs)) (seq 0 (SemColl.blk cs)) /\
+  SemColl.coll_reply K_RMA root cs r = SemColl.coll_reply K_RSB root cs r /\
+  SemColl.coll_reply K_ALLREDUCE_MAX root cs r = map (fun i => SemColl.maxz (map (fun c => nth i c 0) cs)) (seq 0 (length (hd [] cs))).
+Proof. intros root cs r. repeat split; reflexivity. Qed.
+Print Assumptions C01_coll_contract.
+
+(* GENERIC: a level-structured point-to-point protocol (hypotheses of C01_rounds_every_schedule, with two generalisations: the result
+   out r ord may depend on the arrival orders; a level of a rank may be `fixedord` - all its receives name their source, in the order
+   srcs r l) as a phase of the semantics with collectives, for any communicator size Pc > 0 and any contract: no reachable state has
+   all ranks at a collective, and every run satisfies SemColl.every_schedule (progress, length bound, final iff total_len steps, in
+   final states every rank has returned out r ord for a valid order family and all channels are empty) *)
+Theorem C01_roundsord_every_schedule : forall (Pc : Z) (creply : Z -> Z -> list payload -> Z -> payload)
+    (NL : nat) (tagof : nat -> Z) (sends : Z -> nat -> list (Z * payload)) (srcs : Z -> nat -> list Z)
+    (wire : nat -> Z -> Z -> payload) (named : Z -> nat -> nat -> bool) (fixedord : Z -> nat -> bool)
+    (P : Z -> prog) (out : Z -> (nat -> list Z) -> payload) (rks : list Z),
+  0 < Pc -> NoDup rks ->
+  (forall r l, ~ In r rks -> sends r l = [] /\ srcs r l = []) ->
+  (forall r p p', (p < p')%nat -> (p' < NL)%nat -> tagof p = tagof p' ->
+     (forall q, In q (srcs r p') -> In q (srcs r p)) /\ (forall i, named r p i = false -> i = 0%nat)) ->
+  (forall r l i, (l < NL)%nat -> fixedord r l = true -> named r l i = true) ->
+  (forall r l, (l < NL)%nat -> NoDup (map fst (sends r l))) ->
+  (forall r l, (l < NL)%nat -> NoDup (srcs r l)) ->
+  (forall r l q, (l < NL)%nat -> In q (srcs r l) -> 0 <= q) ->
+  (forall q l d m, (l < NL)%nat -> In (d, m) (sends q l) -> In q (srcs d l) /\ m = wire l q d) ->
+  (forall r l q, (l < NL)%nat -> In q (srcs r l) -> In (r, wire l q r) (sends q l)) ->
+  (forall r ord, SemRoundsOrd.valid NL srcs fixedord r ord ->
+     SemRounds.feed (map (SemRoundsOrd.reply_of wire r) (SemRoundsOrd.script NL sends named r ord)) (P r) =
+     (map (SemRoundsOrd.act_of tagof) (SemRoundsOrd.script NL sends named r ord), Some (out r ord))) ->
+  forall n s, SemColl.run_c Pc creply n (SemRoundsOrd.init P) s ->
+    (Sem.final s \/ SemColl.can_step_c Pc creply s) /\ (n <= SemRoundsOrd.total_len NL sends srcs rks)%nat /\
+    (Sem.final s <-> n = SemRoundsOrd.total_len NL sends srcs rks) /\
+    (Sem.final s -> (forall r, exists ord, SemRoundsOrd.valid NL srcs fixedord r ord /\ Sem.pr s r = Ret (out r ord)) /\
+                    (forall a b t, Sem.ch s a b t = [])).
+Proof. exact SemRoundsOrd.es_rounds. Qed.
+Print Assumptions C01_roundsord_every_schedule.
+
+(* ALLGATHER, EVERY SCHEDULE, every P >= 1, every receiver family: system allgather_sys (rank r < P runs allgather_core r (R r) None ..):
+   every run fires MPI_Allgather, then MPI_Allgatherv, once each (2 steps), no reachable state is stuck, and in the final state every
+   rank has returned the transposed list.  The contract hypothesis of C01_allgather_program is discharged: the reply IS computed from
+   the contributions of all ranks' programs *)
+Theorem C01_allgather_every_schedule : forall P (R : Z -> list Z), 0 < P ->
+  forall n s, SemColl.run_c P SemColl.coll_reply n (CollSched.allgather_sys P R) s ->
+    (Sem.final s \/ SemColl.can_step_c P SemColl.coll_reply s) /\ (n <= 2)%nat /\ (Sem.final s <-> n = 2%nat) /\
+    (Sem.final s -> (forall r, 0 <= r < P -> Sem.pr s r = Ret (result (transpose P R r) [])) /\ (forall a b t, Sem.ch s a b t = [])).
+Proof. exact CollSched.allgather_every_schedule. Qed.
+Print Assumptions C01_allgather_every_schedule.
+
+(* PEX, EVERY SCHEDULE: one MPI_Alltoall (1 step) *)
+Theorem C01_pex_every_schedule : forall P (R : Z -> list Z) sz0, 0 < P ->
+  forall n s, SemColl.run_c P SemColl.coll_reply n (CollSched.pex_sys P R sz0) s ->
+    (Sem.final s \/ SemColl.can_step_c P SemColl.coll_reply s) /\ (n <= 1)%nat /\ (Sem.final s <-> n = 1%nat) /\
+    (Sem.final s -> (forall r, 0 <= r < P -> Sem.pr s r = Ret (result (transpose P R r) [])) /\ (forall a b t, Sem.ch s a b t = [])).
+Proof. exact CollSched.pex_every_schedule. Qed.
+Print Assumptions C01_pex_every_schedule.
+
+(* PCX (kind = K_RSB: MPI_Reduce_scatter_block) AND RSX (kind = K_RMA: accumulate epoch), EVERY SCHEDULE, every P >= 1, every family of
+   ascending receiver lists, sorted or unsorted output: system census_sys (rank r < P runs census_core kind P (R r) None sorted ..).
+   In EVERY run: (i) a reachable state is final or can step (no deadlock); (ii) a run has at most census_steps = 1 + all sends + all
+   receives steps and is final exactly after that many (every maximal run is finite and ends final: the `count` wildcard receives are
+   all served); (iii) in every final state rank r has returned result o [] with o a permutation of the transposed list - THE transposed
+   (ascending) list if sorted, the arrival order otherwise (C01/CollTests.v: different schedules give different orders) - and every
+   channel is empty (no unreceived message).  Both hypotheses of C01_census_program (census contract, round abstraction) discharged. *)
+Theorem C01_census_every_schedule : forall kind, kind = K_RSB \/ kind = K_RMA ->
+  forall P (R : Z -> list Z) (sorted : bool), 0 < P ->
+  (forall f, 0 <= f < P -> ssorted (fun x => x) (R f) /\ forall t, In t (R f) -> 0 <= t < P) ->
+  forall n s, SemColl.run_c P SemColl.coll_reply n (CensusSched.census_sys kind P R false (fun _ _ => []) sorted) s ->
+    (Sem.final s \/ SemColl.can_step_c P SemColl.coll_reply s) /\
+    (n <= CensusSched.census_steps P R false (fun _ _ => []))%nat /\
+    (Sem.final s <-> n = CensusSched.census_steps P R false (fun _ _ => [])) /\
+    (Sem.final s ->
+       (forall r, 0 <= r < P -> exists o, Permutation o (transpose P R r) /\ (sorted = true -> o = transpose P R r) /\
+                                         Sem.pr s r = Ret (result o [])) /\
+       (forall a b t, Sem.ch s a b t = [])).
+Proof. intros kind Hk P R sorted HP HR. exact (CensusSched.census_every_schedule kind Hk P R false (fun _ _ => []) sorted HP HR). Qed.
+Print Assumptions C01_census_every_schedule.
+Theorem C01_census_steps_le : forall P (R : Z -> list Z), 0 < P ->
+  (forall f, 0 <= f < P -> ssorted (fun x => x) (R f) /\ forall t, In t (R f) -> 0 <= t < P) ->
+  (CensusSched.census_steps P R false (fun _ _ => []) <= 1 + Z.to_nat P * (2 * Z.to_nat P))%nat.
+Proof. intros P R HP HR. exact (CensusSched.census_steps_le P R false (fun _ _ => []) HP HR). Qed.
+Print Assumptions C01_census_steps_le.
+
+(* RANGES, EVERY SCHEDULE, every P >= 1, every budget nr >= 1 of ranges, every family of ascending receiver lists: system ranges_sys
+   (rank r < P runs ranges_core P r nr (R r) None ..): MPI_Allreduce (MAX), MPI_Allgather, then sends to the decoded receivers and named
+   receives from the decoded senders of C15's table.  (i) final or can step, (ii) at most ranges_steps = 2 + sends + receives steps,
+   final exactly after that many, (iii) final states: transposed lists, empty channels (the flag-0 messages to ranks that are only
+   inside a range are all received).  Both contract hypotheses of C01_ranges_round_semantics are discharged *)
+Theorem C01_ranges_every_schedule : forall P (R : Z -> list Z) nr, 0 < P -> 1 <= nr ->
+  (forall f, 0 <= f < P -> ssorted (fun x => x) (R f) /\ forall t, In t (R f) -> 0 <= t < P) ->
+  forall n s, SemColl.run_c P SemColl.coll_reply n (RangesSched.ranges_sys P R false (fun _ _ => []) 0 nr) s ->
+    (Sem.final s \/ SemColl.can_step_c P SemColl.coll_reply s) /\
+    (n <= RangesSched.ranges_steps P R false (fun _ _ => []) 0 nr)%nat /\
+    (Sem.final s <-> n = RangesSched.ranges_steps P R false (fun _ _ => []) 0 nr) /\
+    (Sem.final s -> (forall r, 0 <= r < P -> Sem.pr s r = Ret (result (transpose P R r) [])) /\ (forall a b t, Sem.ch s a b t = [])).
+Proof. intros P R nr HP Hnr HR. exact (RangesSched.ranges_every_schedule P R false (fun _ _ => []) 0 nr HP Hnr HR). Qed.
+Print Assumptions C01_ranges_every_schedule.
+Theorem C01_ranges_steps_le : forall P (R : Z -> list Z) nr, 0 < P -> 1 <= nr ->
+  (forall f, 0 <= f < P -> ssorted (fun x => x) (R f) /\ forall t, In t (R f) -> 0 <= t < P) ->
+  (RangesSched.ranges_steps P R false (fun _ _ => []) 0 nr <= 2 + Z.to_nat P * (2 * Z.to_nat P))%nat.
+Proof. intros P R nr HP Hnr HR. exact (RangesSched.ranges_steps_le P R false (fun _ _ => []) 0 nr HP Hnr HR). Qed.
+Print Assumptions C01_ranges_steps_le.
+
+(* every run of these systems can be continued to a final state (generic consequence of the every-schedule statement) *)
+Theorem C01_semcoll_completes : forall P creply s0 T (good : Sem.gs -> Prop), SemColl.every_schedule P creply s0 T good ->
+  forall n s, SemColl.run_c P creply n s0 s -> exists s', SemColl.run_c P creply (T - n) s s' /\ Sem.final s'.
+Proof. exact SemColl.es_completes. Qed.
+Print Assumptions C01_semcoll_completes.
